@@ -414,7 +414,6 @@ func parseValue(toks []string) *big.Int {
 	return nil
 }
 
-
 // fallback re-runs the current query (path script + extra) one-shot on the other solvers.
 func (s *Solver) fallback(extra *Term, wantModel bool, vars []*Term) (Result, Model, bool) {
 	if len(s.Fallbacks) == 0 {
